@@ -86,7 +86,7 @@ def gen_case(rng, tier, est=None, seeded=None, long_lived=False):
             case["grid"] = step
             seeded = False
         smax = float(np.abs(X).max()) or 1.0
-        seeded = (rng.random() < 0.15) if seeded is None else seeded
+        seeded = (rng.random() < (0.4 if est == "gmm" else 0.15)) if seeded is None else seeded
         if est == "gmm_kminit":
             seeded = True if seeded is None else seeded
         case.update(X=L(X), cfg={
@@ -187,6 +187,11 @@ def gen_case(rng, tier, est=None, seeded=None, long_lived=False):
                 o["sched"] = gen_sched(rng)
             if est in ("isv", "jfa", "isv_array", "jfa_array") and rng.random() < 0.2:
                 o["rejected_first"] = True
+            if est in ("kmeans", "gmm", "gmm_kminit") and rng.random() < 0.25:
+                # (not for ISV / JFA: they draw U, V and D when they are constructed, and those
+                # matrices are state that training continues from - a seed assigned later
+                # configures nothing that is still to be drawn)
+                o["seed_via"] = rng.choice(["set_params", "attribute"])
             ops.append(o)
             fits_done += 1
     if case["cfg"].get("seeded") and rng.random() < 0.5:
@@ -265,6 +270,19 @@ def fixed_cases(tier):
     for i in range(6 if tier == "quick" else 40):
         rng = random.Random(f"fixed16/{i}")
         out.append(gen_case(rng, tier, est=rng.choice(["kmeans", "gmm_kminit"]), seeded=True))
+    # seeded estimators configured through set_params / attribute assignment vs the constructor
+    for est in ("gmm", "kmeans", "gmm_kminit"):
+        for i in range(8 if tier == "quick" else 40):
+            rng = random.Random(f"fixed16-seedroute/{est}/{i}")
+            c = gen_case(rng, tier, est=est, seeded=True)
+            fits = [o for o in c["ops"] if o["op"] == "fit"]
+            for j, o in enumerate(fits):
+                o.update(pres="identity", backend="np")
+                o.pop("perm", None), o.pop("sigma", None), o.pop("sched", None)
+                o.pop("seed_via", None)
+                if j % 2 == 1:
+                    o["seed_via"] = rng.choice(["set_params", "attribute"])
+            out.append(c)
     # long-lived estimator objects: one object trained dozens of times (hundreds of EM steps)
     for est in ("gmm", "gmm", "kmeans", "wccn"):
         for i in range(3 if tier == "quick" else 15):
@@ -319,6 +337,25 @@ def _seed(cfg):
 _KEEP = {}
 
 
+def _ctor_seed(cfg, o):
+    """The seed given to the constructor: the configured one, or another one when the configured
+    seed is applied afterwards through set_params() / attribute assignment (scikit-learn style)."""
+    if o.get("seed_via") in ("set_params", "attribute"):
+        return type(cfg["rs"])(int(cfg["rs"]) + 1)
+    return cfg["rs"]
+
+
+def _apply_seed(m, cfg, o, rec):
+    via = o.get("seed_via")
+    if via == "set_params":
+        m.set_params(random_state=cfg["rs"])
+    elif via == "attribute":
+        m.random_state = cfg["rs"]
+    if via:
+        rec.probe("seed_configured_after_construction")
+    return m
+
+
 def _fit(case, o, rec, label):
     from bob.learn.em import GMMMachine, KMeansMachine, ISVMachine, JFAMachine, WCCN
 
@@ -337,7 +374,8 @@ def _fit(case, o, rec, label):
     if est == "kmeans":
         init = "random" if False else (cfg["init_method"] if cfg["seeded"] else A(cfg["init"]))
         m = KMeansMachine(cfg["k"], init_method=init, max_iter=cfg["steps"],
-                          convergence_threshold=cfg.get("km_thr"), random_state=cfg["rs"])
+                          convergence_threshold=cfg.get("km_thr"), random_state=_ctor_seed(cfg, o))
+        _apply_seed(m, cfg, o, rec)
         if case.get("reuse_obj"):
             m = _KEEP.setdefault("est", m)
         X = data["X"]
@@ -348,7 +386,8 @@ def _fit(case, o, rec, label):
     if est in ("gmm", "gmm_kminit"):
         kw = dict(max_fitting_steps=cfg["steps"], convergence_threshold=cfg.get("km_thr"),
                   update_means=True,
-                  update_variances=cfg["uv"], update_weights=cfg["uw"], random_state=cfg["rs"])
+                  update_variances=cfg["uv"], update_weights=cfg["uw"],
+                  random_state=_ctor_seed(cfg, o))
         if cfg.get("mvut") is not None:
             kw["mean_var_update_threshold"] = cfg["mvut"]
         if est == "gmm_kminit":
@@ -358,18 +397,22 @@ def _fit(case, o, rec, label):
             if case.get("shared_km") and not case.get("_pristine"):
                 # one k-means trainer object configured once and handed to every GMM
                 km = _KEEP.setdefault("km", km)
-            g = GMMMachine(cfg["k"], k_means_trainer=km, **kw)
+            g = _apply_seed(GMMMachine(cfg["k"], k_means_trainer=km, **kw), cfg, o, rec)
             g.variance_thresholds = cfg["vfloor"]
         else:
-            g = GMMMachine(cfg["k"], **kw)
+            g = _apply_seed(GMMMachine(cfg["k"], **kw), cfg, o, rec)
             if case.get("reuse_obj"):
                 # one long-lived machine: put back to its start through the setters before every
                 # training (it then must train like a new one)
                 g = _KEEP.setdefault("est", g)
             g.variance_thresholds = cfg["vfloor"]
-            g.means = A(cfg["init"])
-            g.variances = A(cfg["variances"])
-            g.weights = A(cfg["weights"])
+            if cfg["seeded"] and not case.get("reuse_obj"):
+                # no start given: the machine builds its default k-means trainer from its seed
+                rec.probe("gmm_default_initialisation_from_the_seed")
+            else:
+                g.means = A(cfg["init"])
+                g.variances = A(cfg["variances"])
+                g.weights = A(cfg["weights"])
         X = data["X"]
         res = under(lambda: g.fit(da.from_array(X, chunks=(chunks, (X.shape[1],)))
                                   if backend == "da" else X))
@@ -385,10 +428,11 @@ def _fit(case, o, rec, label):
             ukw = {"ubm": _mk_ubm(case["ubm"])}
         if est.startswith("isv"):
             m = ISVMachine(cfg["rU"], em_iterations=cfg["it"], relevance_factor=cfg["rf"],
-                           random_state=cfg["rs"], **ukw)
+                           random_state=_ctor_seed(cfg, o), **ukw)
         else:
             m = JFAMachine(cfg["rU"], cfg["rV"], em_iterations=cfg["it"],
-                           relevance_factor=cfg["rf"], random_state=cfg["rs"], **ukw)
+                           relevance_factor=cfg["rf"], random_state=_ctor_seed(cfg, o), **ukw)
+        _apply_seed(m, cfg, o, rec)
         if o.get("rejected_first"):
             # a first call with class ids that do not start at 0 is refused while the machine
             # is being initialised; the caller catches the exception and trains the same object
@@ -657,6 +701,9 @@ def _unrelated(o):
 def signature(case, clause):
     cfg = case["cfg"]
     if case["kind"] in ("kmeans", "gmm_kminit") and cfg.get("seeded"):
+        return "seeded-init x sample-permutation"
+    if case["kind"] == "gmm" and cfg.get("seeded") and not case.get("reuse_obj"):
+        # (a GMM without a given start builds its default, seeded, k-means trainer itself)
         return "seeded-init x sample-permutation"
     return case["kind"]
 
